@@ -94,6 +94,18 @@ def run(R):
     steps = [n for n, c in ro.calls_to(ct, [st])]
     res = [n for n, c in kit.call_sites(ct, lambda c: q.call_name(c) == "%s._resume_contexts" % tp)]
     p = cfg.find_path([cfg.entry], steps, N, cut_nodes=res)
+    if p is not None:
+        # the resume may have been moved to the callers: then every call of the stepping method is preceded, in its caller, by
+        # <argument>._resume_contexts()
+        sites = common.caller_sites(R, ro, ct, tp)
+        ok_callers = bool(sites)
+        for cf, cn, cc, arg in sites:
+            ccfg = cfg_of(cf)
+            cres = [n for n, c in kit.call_sites(cf, lambda c: q.call_name(c) == "%s._resume_contexts" % arg)]
+            if ccfg.find_path([ccfg.entry], [cn], N, cut_nodes=cres) is not None or not cres:
+                ok_callers = False
+        if ok_callers:
+            p, res = None, [True]
     R.check(p is None and res, "C06.RESUME-DOM", ct.qualname, R.site(ct),
             "every step of a task is preceded by %s._resume_contexts()" % tp,
             "a task can be stepped with its contexts still paused", cfg.fmt_path(p) if p else None)
@@ -115,7 +127,16 @@ def run(R):
     resumes = [n for n, c in kit.call_sites(hm, lambda c: q.call_name(c) == "%s._resume_contexts" % hp)]
     for t in tests:
         starts = [e.dst for e in hcfg.out_edges(t.id, N) if e.label == flag(t, True)]
-        p = hcfg.find_path(starts, [hcfg.exit], N, cut_nodes=pauses)
+        cflag = contexts_active_flag(R)
+
+        def paused_already(e):
+            # `if task.<flag>: task._pause_contexts()` : the skipping edge is the one on which the contexts are paused already
+            nd = hcfg.nodes[e.src]
+            if nd.kind != "test":
+                return False
+            k, s, pos = q.atom_test(nd.ast)
+            return k == "truth" and s == "%s.%s" % (hp, cflag) and e.label == ("F" if pos else "T")
+        p = hcfg.find_path(starts, [hcfg.exit], N, cut_nodes=pauses, keep_edge=lambda e: not paused_already(e))
         R.check(p is None and pauses, "C06.PAUSE-LEAVE", hm.qualname + ":pause", R.site(hm, t.ast),
                 "a task that is left blocked (second visit) gets its contexts paused on every path",
                 "a task can be left blocked with its contexts active: they stay active while unrelated tasks run and while batches are flushed",
@@ -383,9 +404,17 @@ def enter_exit_rules(R, P):
                     return "T" if pos else "F"
                 return None
 
+            reg_args = set(q.src(a) for n_, c in regs for a in c.args[1:2]) | set(q.src(q.attr_call(c)[0]) for n_, c in regs if q.attr_call(c)[1] == inner)
+
             def no_task(nd):
-                # written-out form: nothing to register when there is no active task
-                if nd.kind != "test" or not written_out:
+                # nothing to (un)register when there is no active task: written-out form, or an explicit test of the very task
+                # that is handed to leave_context()
+                if nd.kind != "test":
+                    return None
+                if not written_out:
+                    k, s_, pos = q.atom_test(nd.ast)
+                    if k == "isnone" and s_ in reg_args:
+                        return "T" if pos else "F"
                     return None
                 k, s_, pos = q.atom_test(nd.ast)
                 if k == "isnone" and ("active_task" in s_ or s_.endswith("_task")):
@@ -422,7 +451,15 @@ def enter_exit_rules(R, P):
                 return "T" if pos else "F"
             return None
     else:
-        _no_task = lambda nd: None
+        _leave_args = set(q.src(c.args[1]) for n, c in kit.call_sites(ex, lambda c: q.call_name(c) == "leave_context" and len(c.args) > 1))
+
+        def _no_task(nd):
+            if nd.kind != "test":
+                return None
+            k, s_, pos = q.atom_test(nd.ast)
+            if k == "isnone" and s_ in _leave_args:
+                return "T" if pos else "F"
+            return None
     pauses = [n for n, c in _calls_on_self(ex, "pause")]
 
     def asyncio_mode(nd):
